@@ -71,7 +71,13 @@ func renderTraceDoc(html string, fonts wtext.FontConfiguration, repo string) (Tr
 				return
 			}
 		}
-		d, err = render.Full(html, fonts, render.Opts{BaseURL: "http://c15.invalid/"})
+		// layout with the shared helper, drawing onto the C15 recorder (rec.go): glyphs, image and
+		// font bytes are part of the trace
+		d, err = render.Full(html, fonts, render.Opts{BaseURL: "http://c15.invalid/", NoWrite: true})
+		if err == nil {
+			d.Rec = render.NewRec()
+			d.Out.Write(wdoc{d.Rec}, 1, nil)
+		}
 	})
 	switch {
 	case o.Timeout:
@@ -513,6 +519,13 @@ func runDocs(tier string, seed uint64, modelPath, repo string, out *res.Result, 
 		model = m
 		defer m.Close()
 		if err := witnessCorr(m, out); err != nil {
+			return err
+		}
+		nq := 300
+		if tier == "thorough" {
+			nq = 1500
+		}
+		if err := quotesCorr(m, rng.New(seed^0x9007e5), nq, out); err != nil {
 			return err
 		}
 	} else {
